@@ -299,8 +299,12 @@ func (g *grpcClient) NewConn(
 		}
 	} else {
 		conn.readTrailers = func(_ *grpcUnmarshaler, call *duplexHTTPCall) http.Header {
-			// To access HTTP trailers, we need to read the body to EOF.
-			_ = discard(call)
+			// To access HTTP trailers, we need to read the body to EOF. If there's
+			// more left of it than we're willing to drain, the trailers are out of
+			// reach - whatever net/http may happen to have seen already.
+			if drained, _ := discard(call); !drained {
+				return make(http.Header)
+			}
 			return call.ResponseTrailer()
 		}
 	}
